@@ -253,12 +253,18 @@ impl BuildSystem {
         }
 
         // Save cache after successful generation
+        let mut vouched_files = generated_files.clone();
+        if config.should_visualize_deps() {
+            vouched_files.push("dependency-graph.txt".to_string());
+            vouched_files.push("dependency-graph.dot".to_string());
+        }
         let cache = GenerationCache::with_events(
             &commands,
             discovered_structs,
             analyzer.get_discovered_events(),
             config,
-        )?;
+        )?
+        .with_files(&vouched_files);
         if let Err(e) = cache.save(&config.output_path) {
             self.logger
                 .warning(&format!("Failed to save generation cache: {}", e));
